@@ -107,7 +107,7 @@ func cmdCheck(args []string) int {
 		return toolError("need -property")
 	}
 	t0 := time.Now()
-	w, err := loadWorld(*repo, filepath.Join(verifDir, "specs"))
+	w, err := loadWorld(*repo, specsDir())
 	if err != nil {
 		return toolError("%v", err)
 	}
@@ -492,7 +492,7 @@ func cmdDump(args []string) int {
 	show := fs.Bool("smt", false, "print SMT")
 	split := fs.Bool("split", false, "split conjunctive goals of failing obligations and solve each conjunct")
 	fs.Parse(args)
-	w, err := loadWorld(*repo, filepath.Join(verifDir, "specs"))
+	w, err := loadWorld(*repo, specsDir())
 	if err != nil {
 		return toolError("%v", err)
 	}
@@ -558,4 +558,11 @@ func flattenAnd(g string) []string {
 		return out
 	}
 	return []string{g}
+}
+
+func specsDir() string {
+	if d := os.Getenv("GOVC_SPECS"); d != "" {
+		return d
+	}
+	return filepath.Join(verifDir, "specs")
 }
